@@ -123,6 +123,8 @@ def coq_expr(pid, s, r, suffix=""):
         # graph marks the scenario as the best candidate for the search of a deadlocking schedule)
         return (f"(check_C01' ({s.coq_b(*r['adr'])}) {sched} ({hl.bobs_coq(r['bobs'])}), "
                 f"acyclic_impl ({s.coq_b(*r['adr'])}) ({hl.bobs_coq(r['bobs'])}), wfB ({s.coq_b(*r['adr'])}))")
+    if pid == "C09" and not suffix:
+        return f"(check_C09 ({s.coq_b(*r['adr'])}) {sched} ({hl.bobs_coq(r['bobs'])}), wfB09 ({s.coq_b(*r['adr'])}))"
     if pid == "C02" and not suffix:
         return f"(check_C02 ({s.coq_b(*r['adr'])}) {sched} ({hl.bobs_coq(r['bobs'])}), wfB ({s.coq_b(*r['adr'])}))"
     return f"check_{pid}{suffix} ({s.coq_b(*r['adr'])}) {sched} ({hl.bobs_coq(r['bobs'])})"
